@@ -85,3 +85,22 @@ PROPS['C20'] = dict(
     explanation='E1: from_ascii accepts iff L = 3(n+1) with flags in {0,1,2,3,4,9}, EOFError iff L < 3, ValueError otherwise (both directions), and the column association of '
                 'name, coordinates, flags and (flux, error) pairs -- for every column count. The setters\\' validation code is executed as part of the caller (inlined). '
                 'E2: exhaustive column counts for n <= 5/12, bad flags, formatted round trips.')
+
+EXTN = 'sedfitter.extinction.extinction.Extinction.'
+PROPS['C14'] = dict(
+    level='proof',
+    e1=[EXTN + 'get_av'],
+    e2=('rtc.io_props', 'run_c14'),
+    assumptions=COMMON + ['A-UNIT: unit model of sedvc/units.py (exact rational SI scales, dimension vectors)',
+                          'dep: np.interp = the line of every tabulated segment containing the argument; a value inside a strictly increasing table lies in some segment (sedvc/extmodels.py interp_function)',
+                          'pickle / table / text-file round trips are decided by the bounded run only'],
+    explanation='E1 (4 unit combinations of table and query, any table length, any number of queries): result * chi(V) = -0.4 chi(lambda) inside the table with chi = np.interp\'s '
+                'interpolant of the table, chi(V) > 0, exactly -0.4 at V, 0 outside, result dimensionless; the unit factors cancel symbolically. E2: tables, units, round trips.')
+PROPS['C15'] = dict(
+    level='proof',
+    e1=['sedfitter.sed.helpers.convert_flux'],
+    e2=('rtc.io_props', 'run_c15'),
+    assumptions=COMMON + ['A-UNIT: unit model of sedvc/units.py', 'the two call sites in SED.read (which nu is passed after a reversal) are decided by the bounded run only'],
+    explanation='E1: for each of the 25 (stored, requested) unit pairs and all values/frequencies/distances/shapes (incl. square arrays) the result equals the statement\'s relation '
+                '(F = nu F_nu, L = F d^2); A->B->A = id and A->B->C = A->C as lemmas over the spec; an unsupported unit reaches the raise. E2: the same through SED.write/SED.read.')
+PROPS['C01']['e1'] = PROPS['C01']['e1'] + [EXTN + 'get_av']
